@@ -878,3 +878,7 @@ RVR = "refactors/v-results/patch.diff"
 mutant("rvr-undefined-variable-reads-null",
        [(E, "            scopes.get(name)\n                .or_else(new_loc_err)", "            scopes.get(name)\n                .or_else(|_| Ok(value::new_null()))")],
        [("C20", "R20.4")], base=RVR, note="Result-returning scope lookup + the Undefined error is replaced by null")
+RVG = "refactors/v-generic/patch.diff"
+mutant("rvg-into-bool-accepts-int",
+       [("src/eval/value.rs", "        Value::Bool(b) => Ok(b),\n        v => Err(v),", "        Value::Bool(b) => Ok(b),\n        Value::Int(n) => Ok(n != 0),\n        v => Err(v),")],
+       [("C16", "R16.2")], base=RVG, note="generic coercion helpers + the narrowing function for conditions silently converts ints")
